@@ -490,3 +490,16 @@ impl Pcap {
         Ok(bytes.len())
     }
 }
+
+// Verification hook (off unless built with `--cfg p2sh_verif` or under Kani): PcapPacket's fields
+// are private and its only constructor reads a file.
+#[cfg(any(p2sh_verif, kani))]
+impl PcapPacket {
+    pub fn verif_from_parts(header: PcapPacketHeader, rawdata: Rc<Vec<u8>>) -> Self {
+        Self {
+            header: RefCell::new(header),
+            rawdata: RefCell::new(rawdata),
+            inner: RefCell::new(None),
+        }
+    }
+}
